@@ -193,6 +193,8 @@ def oracleFor (prop : String) (c : Cfg) (t : Spec.Trace) : Option Bool :=
   | "C07" => some (Spec.oracleC07 (kindOf c) t)
   | "C16" => some (Spec.oracleC16 (kindOf c) c.ttl c.tti t)
   | "C04" => some (Spec.oracleC04 (kindOf c) c.cap t)
+  | "C13" => some (Spec.oracleC13 (kindOf c) c.cap c.ttl c.tti c.params.weigh t)
+  | "C12" => some (Spec.oracleC12 (kindOf c) c.cap c.ttl c.tti c.params.weigh Gen.UNSYNC_EVICTION_BATCH_SIZE t)
   | "C03" => some (Spec.oracleC03 (kindOf c) c.cap c.ttl c.tti c.params.weigh t)
   | _ => none
 
